@@ -175,7 +175,10 @@ def handle (j : Json) : Json :=
   let t := jobj j "t"
   let id := jstr s "id"
   let cs := parseContents (jobj s "contents")
-  let outcome := jstr t "outcome"
+  -- (the async logger's stderr lines can land inside the runtime's "terminate called ... instance of '…'" message)
+  let outcome0 := jstr t "outcome"
+  let outcome := if outcome0.startsWith "uncaught:" then "uncaught:" ++ ((outcome0.splitOn "\n").getLast?.getD "")
+                 else outcome0
   let hasBadnum := cs.any (fun c => c.kind == "badnum")
   if outcome != "ok" then
     let cls := if outcome.startsWith "uncaught:" && hasBadnum then "stoi-escape" else "outcome:" ++ outcome
